@@ -25,6 +25,29 @@ META = {
 REQUIRED = ["live_disjoint", "live_in_heap", "live_aligned8", "live_size_ge_request", "tiling",
             "free_list_sorted_nonadjacent", "writes_outside_live_payloads", "malloc_zero_iff"]
 
+REQUIRED_WAT = ["gen_alignment8", "gen_ptr_and_fixed_size", "gen_is_fixed_size", "gen_block_data",
+                "gen_assert_align8_ok", "gen_assert_align8_trap", "gen_assert_valid_ptr"]
+HELPERS = {"heap_assert_valid_ptr": 1, "heap_is_fixed_list_enabled": 0, "heap_assert_fixed_list_enabled": 0, "heap_is_fixed_size": 1,
+           "heap_alignment8": 1, "heap_assert_align8": 1, "heap_block.data": 1, "heap_free_list.ptr_and_fixed_size": 1}
+
+
+def gen_helper_ops(ctx):
+    vals = set(range(-9, 140)) | {1 << 30, (1 << 30) - 1, (1 << 30) + 1, (1 << 31) - 1, -(1 << 31), (1 << 31) - 8, (1 << 31) - 7, 65536, 65535}
+    for _ in range(200 if ctx.tier == "quick" else 5000):
+        vals.add(ctx.rng.choice(vlib.boundary_ints(32, True)))
+        vals.add(ctx.rng.randrange(-(1 << 31), 1 << 31))
+    ops = []
+    for cfgv in [(1, 2, 100, 1000, 3), (1, 2, 100, 1000, 0), (1, 10, 32768, 40960, 100), (16385, 32767, 100, 1 << 30, 1)]:
+        ops.append("hcfg %d %d %d %d %d" % cfgv)
+        for name, ar in sorted(HELPERS.items()):
+            if ar == 0:
+                ops.append("h %s" % name)
+            else:
+                for v in sorted(vals):
+                    ops.append("h %s %d" % (name, v))
+    return ops
+
+
 SMALL = [0, 1, 7, 8, 9, 15, 16, 17, 23, 24, 25, 31, 32, 33, 40, 47, 48, 49, 56, 72, 79, 80, 81, 87, 88, 89, 96, 120, 127, 128, 129, 135, 136, 137]
 MEDIUM = [144, 200, 256, 257, 500, 1000, 1024, 2000, 4096, 8000]
 PAGE = 65536
@@ -276,9 +299,31 @@ def run(ctx):
             ctx.proof["discharged"] += 1
     ctx.prove(required=REQUIRED)
     model = ctx.build_model("c10")
+    # ---- regenerated WAT of the straight-line helpers: Lean term re-derived from malloc.wat, theorems re-checked on it,
+    #      and the interpreter + term compared with wazero running the same functions
+    gen = os.path.join(vlib.LEAN, "WaVerif", "Gen", "C10Wat.lean")
+    if os.path.exists(gen):
+        os.remove(gen)
+    rc, o = vlib.sh([sys.executable, os.path.join(vlib.VERIF, "extract", "c10_wat2lean.py"), vlib.REPO, gen])
+    wat_model = None
+    if rc != 0 or not os.path.exists(gen):
+        ctx.proof["obligations"] += 1
+        ctx.proof["broken"].append({"theorem": "regenerate Gen/C10Wat.lean from malloc.wat", "why": o.strip()[-400:]})
+    else:
+        ctx.prove(module="WaVerif.Props.C10Wat", required=REQUIRED_WAT)
+        wat_model = ctx.build_model("c10wat")
+    helper_lines = 0
+    if wat_model:
+        hops = gen_helper_ops(ctx)
+        _, ho, _ = ctx.run_bin(harness, input_text="\n".join(hops) + "\n", timeout=600)
+        _, hm, _ = ctx.run_bin(wat_model, input_text="\n".join(hops) + "\n", timeout=600)
+        helper_lines = len(hops)
+        for i, op, a, b in ctx.diff_lines(hops, ho.splitlines(), hm.splitlines())[:10]:
+            ctx.proof["broken"].append({"theorem": "correspondence C10 regenerated helper WAT (Lean interpreter) vs wazero",
+                                        "why": "op %r: wazero=%r lean=%r" % (op, a, b)})
 
     quick = ctx.tier == "quick"
-    nhist, nops = (48, 400) if quick else (2000, 2000)
+    nhist, nops = (48, 400) if quick else (640, 1500)
     jobs = []        # (name, cfg, nops, style, script, seed)
     if ctx.replay:
         rp = json.load(open(ctx.replay))
@@ -314,14 +359,22 @@ def run(ctx):
         for (name, cfgv, n, style, script, seed) in chunk:
             res.append((name, cfgv, run_history(drv, random.Random(seed), cfgv, n, style, script)))
         drv.close()
-        return res
+        mlines = None
+        if model:           # the model replays this worker's op lines (concrete pointers) in one batch
+            ops_ = [r[0] for (_, _, rec) in res for r in rec]
+            _, mo, _ = ctx.run_bin(model, input_text="\n".join(ops_) + "\n", timeout=3000)
+            mlines = mo.splitlines()
+        return res, mlines
 
     nw = 8 if quick else 16
     chunks = [jobs[i::nw] for i in range(nw)]
-    hists = []
+    hists, model_lines = [], []
     with cf.ThreadPoolExecutor(nw) as ex:
-        for r in ex.map(work, [c for c in chunks if c]):
+        for r, ml in ex.map(work, [c for c in chunks if c]):
             hists.extend(r)
+            nops_ = sum(len(rec) for (_, _, rec) in r)
+            ml = (ml or [])[:nops_]
+            model_lines.extend(ml + ["<missing>"] * (nops_ - len(ml)))
 
     # ---- oracle verdicts (evaluated by harness/c10 on the real heap) and distribution
     dist, cfg_seen, nontrivial = {}, set(), set()
@@ -355,8 +408,7 @@ def run(ctx):
     # ---- correspondence with the Lean model, line by line, incl. write log ⊇ changed words
     wl_checked = wl_words = 0
     if model:
-        _, mo, _ = ctx.run_bin(model, input_text="\n".join(allops) + "\n", timeout=3000)
-        mlines = mo.splitlines()
+        mlines = model_lines
         impl_cmp, model_cmp = [], []
         for i, op in enumerate(allops):
             a = split_line(allimpl[i])[0]
@@ -399,6 +451,7 @@ def run(ctx):
         "write_log_ops_checked": wl_checked,
         "write_log_changed_words": wl_words,
         "tie": tie,
+        "helper_wat_ops_compared": helper_lines,
     }
     return ctx.finish("proof", cov,
                       assumptions=["CfgWF: 0 < stackPtr < heapBase, heapBase % 8 = 0, heapBase+48 < pages*64K, pages <= maxPages <= 16383 "
@@ -407,4 +460,6 @@ def run(ctx):
                                    "'can be satisfied' is read with the allocator's size-class rounding (24/32/48/80, at least 128 above 80)",
                                    "the abstract model keeps the ring as an address-ordered list; the K&R position search is modelled by its result"],
                       trusted_base=["hand-written Lean model WaVerif/Model/C10.lean tied by the correspondence run (harness/c10, wazero executing malloc.wat)",
-                                    "oracle in harness/c10/main.go", "extract/c10_wat_tie.py (token comparison of the two WAT files)"])
+                                    "oracle in harness/c10/main.go", "extract/c10_wat_tie.py (token comparison of the two WAT files)",
+                                    "extract/c10_wat2lean.py + the WAT-subset interpreter Model/C10Wat.lean (i32 as wrapped Int), both compared "
+                                    "with wazero on the exported helper functions"])
